@@ -7,6 +7,7 @@ import (
 	"bytes"
 	"errors"
 	"fmt"
+	"io"
 	"strconv"
 	"strings"
 	"testing"
@@ -18,10 +19,12 @@ import (
 
 	"verif/gen"
 	"verif/kit"
+	"verif/oracle"
 )
 
 func TestMain(m *testing.M) {
 	kit.Register("history", historyOracle)
+	kit.Register("rerender", rerenderOracle)
 	kit.Describe("case = (configuration, pool of 2..6 documents, operation list over one long-lived Markdown value: cI Convert, fI / gI Convert into a destination that fails at once / after 40 bytes, pI Parse+Render keeping the tree, rI render the kept tree again, xI render a tree parsed by another fresh instance, kI Parse with a caller-supplied fresh parser.Context, bI Convert on a fresh instance); oracle: every output for document i equals the canonical output computed by a brand-new instance before the history starts; non-trivial = >= 3 operations including a re-render of a tree that contains an extension node, or two different documents of a definer/user pair (references, heading ids, footnotes, quotes, tables, fences); distinct by hash of the case",
 		"instances are created fresh for every case", "the canonical outputs are computed from private copies of the documents; in a quarter of the cases all one-shot conversions read their document from one recycled backing array")
 	kit.Main(m, "C06")
@@ -44,6 +47,7 @@ func historyOracle(c *kit.Case) error {
 	}
 	a := cfg.Fresh()
 	trees := map[int]ast.Node{}
+	prints := map[int]string{}
 	// recycle: one-shot conversions read their document from one shared backing array that is overwritten
 	// for every call (bytes.Buffer.Reset, a pool of request buffers); documents whose tree is kept for
 	// re-rendering stay in their own slices, as the API requires
@@ -82,7 +86,7 @@ func historyOracle(c *kit.Case) error {
 			err = a.Convert(oneShot(i), &b)
 		case 'p':
 			t := a.Parser().Parse(text.NewReader(docs[i]))
-			trees[i] = t
+			trees[i], prints[i] = t, oracle.Fingerprint(t)
 			err = a.Renderer().Render(&b, docs[i], t)
 		case 'r':
 			t, ok := trees[i]
@@ -92,7 +96,7 @@ func historyOracle(c *kit.Case) error {
 			err = a.Renderer().Render(&b, docs[i], t)
 		case 'x':
 			t := cfg.Fresh().Parser().Parse(text.NewReader(docs[i]))
-			trees[i] = t
+			trees[i], prints[i] = t, oracle.Fingerprint(t)
 			err = a.Renderer().Render(&b, docs[i], t)
 		case 'k':
 			src := oneShot(i)
@@ -117,6 +121,59 @@ func historyOracle(c *kit.Case) error {
 		}
 		if e := check(step, op, i, b.Bytes()); e != nil {
 			return e
+		}
+		if op[0] == 'p' || op[0] == 'r' || op[0] == 'x' {
+			if fp := oracle.Fingerprint(trees[i]); fp != prints[i] {
+				return kit.Violf("render-altered-tree", "step %d (%s): rendering document %d %q changed the tree:%s", step, op, i, docs[i], fpDiff(prints[i], fp))
+			}
+		}
+	}
+	return nil
+}
+
+// fpDiff shows the first line on which two fingerprints differ.
+func fpDiff(a, b string) string {
+	la, lb := strings.Split(a, "\n"), strings.Split(b, "\n")
+	for i := 0; i < len(la) || i < len(lb); i++ {
+		x, y := "", ""
+		if i < len(la) {
+			x = la[i]
+		}
+		if i < len(lb) {
+			y = lb[i]
+		}
+		if x != y {
+			return fmt.Sprintf("\n before %q\n after  %q", x, y)
+		}
+	}
+	return " (no difference)"
+}
+
+// rerenderOracle: one document, one configuration. Parse once; the tree's public surface is fingerprinted; the
+// tree is rendered three times (the second time by another instance of the same configuration): every output
+// equals Convert's on a fresh instance and the fingerprint never changes - rendering does not alter the tree.
+func rerenderOracle(c *kit.Case) error {
+	cfg := gen.ParseConfig(c.Config)
+	src := c.Bytes["src"]
+	var canon bytes.Buffer
+	if err := cfg.Fresh().Convert(append([]byte(nil), src...), &canon); err != nil {
+		return kit.Violf("convert-error", "%v", err)
+	}
+	a := cfg.Fresh()
+	tree := a.Parser().Parse(text.NewReader(src))
+	fp0 := oracle.Fingerprint(tree)
+	for k, r := range []interface {
+		Render(w io.Writer, source []byte, n ast.Node) error
+	}{a.Renderer(), cfg.Fresh().Renderer(), a.Renderer()} {
+		var b bytes.Buffer
+		if err := r.Render(&b, src, tree); err != nil {
+			return kit.Violf("error", "render %d: %v", k+1, err)
+		}
+		if !bytes.Equal(b.Bytes(), canon.Bytes()) {
+			return kit.Violf("rerender-differs", "render %d of the same tree of %q:\n got       %q\n canonical %q", k+1, src, b.Bytes(), canon.Bytes())
+		}
+		if fp := oracle.Fingerprint(tree); fp != fp0 {
+			return kit.Violf("render-altered-tree", "render %d of %q changed the tree:%s", k+1, src, fpDiff(fp0, fp))
 		}
 	}
 	return nil
@@ -148,6 +205,8 @@ var pairs = [][2]string{
 	{"- [ ] a\n- [x] b\n", "- [x] b\n1. [ ] c\n"},
 	{"*a **b\n", "**c* ~~d~~\n"},
 	{"<div>\n", "para <b>x</b>\n"},
+	{"<!-- a\n-->\nokay\n", "<?php\n?>\n<script>\nx\n</script> y\n"},
+	{"> <![CDATA[\n> x\n> ]]>\n", "- <!X\n  y>\n- <pre>\n\n  </pre>\n\n<style>\n"},
 	{"# h {#custom .c}\n\n# h\n", "# h\n\n# custom\n"},
 	{"日本\n語 \\ x\n", "語\n語\n"},
 	{"www.a.bc http://x.yz a@b.cd\n", "www.a.bc\n"},
@@ -186,6 +245,41 @@ func drawDoc(t *rapid.T, label string) []byte {
 		p := rapid.SampledFrom(pairs).Draw(t, label+"p")
 		return []byte(p[rapid.IntRange(0, 1).Draw(t, label+"side")])
 	}
+}
+
+// TestRerender: the re-render relation and the tree fingerprint on every kind of document the shared generators
+// produce, not only on the pool of a history.
+func TestRerender(t *testing.T) {
+	kit.Rapid(t, "rerender", 60000, 2400000, func(t *rapid.T) {
+		cfg := gen.DrawConfig(t, gen.ConfigOpts{})
+		doc, class := gen.Doc(t, gen.Any, 24, "d")
+		c := kit.NewCase("rerender", cfg.String()).B("src", doc)
+		if kit.Check(t, c) {
+			kit.R.Class("rerender:" + class)
+			if len(doc) > 8 {
+				kit.R.NonTrivial(c)
+			}
+		}
+	})
+}
+
+// TestRerenderConstructs: the same over the construct-adjacency enumeration (every pair of block constructs,
+// triples over the reduced set / all), under three configurations.
+func TestRerenderConstructs(t *testing.T) {
+	cfgs := []gen.Config{{Unsafe: true}, {GFM: true, Footnote: true, DefList: true, Typo: true, AutoID: true, Attr: true, Unsafe: true, XHTML: true}, {GFM: true, CJK: 1, HardWraps: true}}
+	n := gen.EnumConstructDocs(kit.Thorough(), func(idx int, doc []byte) {
+		if !kit.Mine(idx) {
+			return
+		}
+		for _, cfg := range cfgs {
+			c := kit.NewCase("rerender", cfg.String()).B("src", doc)
+			if kit.Check(t, c) {
+				kit.R.Class("rerender:constructs")
+				kit.R.NonTrivial(c)
+			}
+		}
+	})
+	kit.R.Note("rerender_constructs", fmt.Sprintf("%d construct-adjacency documents x %d configurations", n, len(cfgs)))
 }
 
 func TestKnown(t *testing.T)  { kit.RunKnown(t) }
